@@ -99,6 +99,34 @@ def register(api):
         m = need(re.search(r"hop_field\.mac\[\.\.(\d+)\]", rpc), "MAC slice in SegmentHopField::try_from_rpc")
         vals["MAC_SLICE"] = int(m.group(1))
 
+        # Which bytes are "the segment header" of the signature chain on the receiving / sending side
+        # (finding 4 of docs/review/comb-signed.md, fix c0ed6e0).  Classified, not pattern-required, so that a
+        # regression breaks the theorems `info_kept_raw` / `info_sent_raw` (and the correspondence) rather than
+        # the extraction:  SEG_INFO_KEPT: 1 = try_from_rpc stores the received `segment.segment_info` bytes in
+        # `info.encoded`, 2 = it keeps the re-encoding built by SegmentInfo::new (the original code), 0 = other;
+        # SEG_INFO_SENT: 1 = into_rpc sends `self.info.encoded`, 2 = it re-encodes (timestamp, segment id), 0 = other.
+        m = need(re.search(r"impl SignedPathSegment\s*\{(.*?)\nimpl ", rpc, re.S), "impl SignedPathSegment in segment/rpc.rs")
+        sps = m.group(1)
+        m = need(re.search(r"pub fn try_from_rpc\b(.*)", sps, re.S), "SignedPathSegment::try_from_rpc")
+        tfr = " ".join(m.group(1).split())
+        if re.search(r"\.encoded\s*=\s*segment\.segment_info\s*;", tfr) or re.search(r"encoded\s*:\s*segment\.segment_info\b", tfr):
+            vals["SEG_INFO_KEPT"] = 1
+        elif re.search(r"info\s*:\s*segment_info\.try_into\(\)\?", tfr) and "encoded" not in tfr:
+            vals["SEG_INFO_KEPT"] = 2
+        else:
+            vals["SEG_INFO_KEPT"] = 0
+        m = need(re.search(r"pub fn into_rpc\b(.*?)pub fn try_from_rpc", sps, re.S), "SignedPathSegment::into_rpc")
+        m = need(re.search(r"segment_info\s*:\s*(.*?),\s*as_entries", " ".join(m.group(1).split())), "segment_info field in SignedPathSegment::into_rpc")
+        sent = m.group(1).strip()
+        vals["SEG_INFO_SENT"] = 1 if sent == "self.info.encoded" else 2 if sent == "self.info.into_rpc().encode_to_vec()" else 0
+        vals["SEG_INFO_SENT_EXPR"] = sent
+        # SegmentInfo::new stores the prost encoding of (timestamp as i64, segment_id as u32)
+        m = need(re.search(r"impl SegmentInfo\s*\{(.*?)\n\}", seg, re.S), "impl SegmentInfo")
+        need(re.search(r"SegmentInformation\s*\{\s*timestamp:\s*timestamp as i64,\s*segment_id:\s*segment_id as u32,?\s*\}\s*\.encode_to_vec\(\)", m.group(1)),
+             "SegmentInfo::new: encoded = SegmentInformation{timestamp, segment_id}.encode_to_vec()")
+        # the associated data starts with info.encoded
+        need(re.search(r"once\(path_segment\.info\.encoded\.as_slice\(\)\)\.chain\(entry_iter\)", body_ad), "associated_data: once(info.encoded).chain(entries)")
+
         meta = api.strip_comments(api.read(f_meta))
         pm = struct_body(meta, "PathMetadata")
         vals["PATH_MTU_BITS"] = field_bits(pm, "mtu", "PathMetadata")[0]
